@@ -5,7 +5,8 @@ Decided statically: set_rate keeps zero column sums and the assigned value
 (TA on its three stores); _propagate_short_exp is the Taylor scheme around
 p -> K p, which conserves sum(p) iff the columns of K sum to zero (TA with
 that fact); get_PropagationMatrix is identity-started, steps with
-S.diag(exp(lambda*step)).S^-1 on the sub-axis and applies the start offset
+expm(K*step) on the sub-axis (a diagonalisation of K is reported: defective rate
+matrices) and applies the start offset
 once; the initial populations are not mutated.  Not decided: non-negativity
 for admissible steps and closeness to expm (magnitudes).
 """
@@ -26,14 +27,14 @@ def check(run, prog, tier):
     run.explanation = (
         "TA interpretation of RateMatrix.set_rate (column sums and assigned value as identities), "
         "Taylor-step recogniser plus conservation identity on the population propagator, structural "
-        "and TA rules on get_PropagationMatrix (identity start, spectral exponential, recurrence, "
+        "and TA rules on get_PropagationMatrix (identity start, matrix exponential that is defined for every rate matrix (no diagonalisation), recurrence, "
         "single application of the start offset, guard by is_subset_of), ownership rule on the "
         "initial populations. Not decided: sign of populations, distance to the matrix exponential.")
-    run.trusted_base = ["numpy.linalg.eig/inv semantics (K = S diag(lambda) S^-1)",
+    run.trusted_base = ["scipy.linalg.expm is the matrix exponential",
                         "qv/ta_front.py model of numpy.dot/diag/eye"]
     run.rule("C17-A", "set_rate keeps zero column sums and the assigned off-diagonal value (TA)", minimum=5)
     run.rule("C17-B", "short-exponential population steps: Taylor scheme, sum conserved iff columns sum to zero", minimum=9)
-    run.rule("C17-C", "propagation matrix: identity start, spectral exponential, recurrence, offset once", minimum=7)
+    run.rule("C17-C", "propagation matrix: identity start, matrix exponential defined for every rate matrix, recurrence, offset once", minimum=7)
     run.rule("C17-D", "initial populations are not mutated", minimum=2)
     rule_A(run, prog)
     rule_B(run, prog)
@@ -165,16 +166,18 @@ def rule_C(run, prog):
                    % (pos if e is None else "ok"), loc=f.loc())
     if e is None:
         return
-    e2, pos = pat.seq(tx, ["$KD, $SS = numpy.linalg.eig(self.KK)", "$S1 = numpy.linalg.inv($SS)"], e)
-    run.obligation(rid, "PopulationPropagator.get_PropagationMatrix", e2 is not None, key="spectral",
-                   message="the exponential must be built from eig(K) and the inverse of its eigenvector matrix",
-                   loc=f.loc())
-    if e2 is None:
+    # the exponential must be defined for every rate matrix: rate matrices are not normal and can be
+    # defective (chain with equal rates), where eig + inverse of the eigenvector matrix is singular
+    spectral = [norm(s_) for s_ in ast.walk(ast.Module(body=blk, type_ignores=[])) if isinstance(s_, ast.Assign)
+                and isinstance(s_.value, ast.Call) and norm(s_.value.func) in ("numpy.linalg.eig", "numpy.linalg.eigh",
+                                                                            "scipy.linalg.eig", "scipy.linalg.eigh")
+                and "self.KK" in norm(s_.value)]
+    run.obligation(rid, "PopulationPropagator.get_PropagationMatrix", not spectral, key="total-exponential",
+                   message="exp(K t) is built from a diagonalisation of the rate matrix (%s): a rate matrix is not "
+                           "normal and can be defective (sequential chain with equal rates); the eigenvector matrix "
+                           "is then singular and the result is not the exponential" % spectral, loc=f.loc())
+    if spectral:
         return
-    e = e2
-    S = Array.opaque("S", 2)
-    S1 = Array.opaque("S1", 2)
-    lam = Array.opaque("lam", 1)
     # step exponential: the matrix applied in the recurrence
     loops = [s_ for s_ in blk if isinstance(s_, ast.For) and norm(s_.iter) == "range(1, %s.length)" % TA]
     ok = len(loops) == 1 and len(loops[0].body) == 1
@@ -209,18 +212,15 @@ def rule_C(run, prog):
         okv = len(asg) == 1
         detail = ""
         if okv:
-            v_ = eval_with(prog, f, asg[0].value, {e["SS"]: S, e["S1"]: S1, e["KD"]: lam, step_text: Expr.factor("h")})
-            okv = isinstance(v_, Array) and v_.rank == 2
+            v_ = asg[0].value
+            okv = isinstance(v_, ast.Call) and prog.external_name(f, v_.func) in ("scipy.linalg.expm", "scipy.linalg.matfuncs.expm") \
+                and len(v_.args) == 1 and not v_.keywords
             if okv:
-                el = v_.at("i", "j")
-                fn = [n_ for n_ in el.names() if n_.startswith("exp{")]
-                okv = len(fn) == 1
-                if okv:
-                    want = (S.at("i", "k") * Expr.factor(fn[0], ("k",)) * S1.at("k", "j")).sum_over("k")
-                    okv = not normal(el - want) and "lam" in fn[0] and "h" in fn[0]
-                    detail = fn[0]
+                arg = norm(v_.args[0])
+                okv = arg in ("self.KK * %s" % step_text, "%s * self.KK" % step_text)
+                detail = arg
         run.obligation(rid, "PopulationPropagator.get_PropagationMatrix", bool(okv), key="exp:" + step_text,
-                       message="the step matrix must be S . diag(exp(lambda * %s)) . S^-1" % step_text,
+                       message="the step matrix must be the matrix exponential expm(K * %s)" % step_text,
                        loc=f.loc(asg[0]) if asg else f.loc(),
                        sample={"expression": norm(asg[0].value) if asg else None, "exponent": detail})
     off = [s_ for s_ in blk if isinstance(s_, ast.If) and norm(s_.test) in ("self.timeAxis.start != %s.start" % TA,
